@@ -94,6 +94,9 @@ namespace occa {
       }
     }
 
+    // End of the digits, before any suffix
+    const char *cDigitsEnd = c;
+
     if (!loadedFormattedValue && !digits) {
       c = c0;
       p.source = std::string(c0, c - c0);
@@ -128,18 +131,17 @@ namespace occa {
 
     if (loadedFormattedValue) {
       // Hex and binary only handle U, L, and LL
-      if (longs == 0) {
-        if (unsigned_) {
-          p = p.to<uint32_t>();
-        } else {
-          p = p.to<int32_t>();
-        }
-      } else if (longs >= 1) {
-        if (unsigned_) {
-          p = p.to<uint64_t>();
-        } else {
-          p = p.to<int64_t>();
-        }
+      // The literal takes the first type that fits:
+      //   int, unsigned int, long, unsigned long
+      const uint64_t magnitude = negative ? 0 : p.to<uint64_t>();
+      if ((longs == 0) && !unsigned_ && (magnitude <= 0x7FFFFFFFULL)) {
+        p = p.to<int32_t>();
+      } else if ((longs == 0) && (magnitude <= 0xFFFFFFFFULL)) {
+        p = p.to<uint32_t>();
+      } else if (!unsigned_ && (magnitude <= 0x7FFFFFFFFFFFFFFFULL)) {
+        p = p.to<int64_t>();
+      } else {
+        p = p.to<uint64_t>();
       }
     } else {
       // Handle the multiple other formats with normal digits
@@ -150,19 +152,20 @@ namespace occa {
           p = (double) occa::parseDouble(std::string(c0, c - c0));
         }
       } else {
-        uint64_t value_ = parseInt(std::string(c0, c - c0));
-        if (longs == 0) {
-          if (unsigned_) {
-            p = (uint32_t) value_;
-          } else {
-            p = (int32_t) value_;
-          }
-        } else if (longs >= 1) {
-          if (unsigned_) {
-            p = (uint64_t) value_;
-          } else {
-            p = (int64_t) value_;
-          }
+        // Parse the digits at full width, the suffixes are applied below
+        uint64_t value_ = parseInt(std::string(c0, cDigitsEnd - c0) + "ULL");
+        // The literal takes the first type that fits:
+        //   int, long   or with U:   unsigned int, unsigned long
+        const int64_t signedValue_ = (int64_t) value_;
+        if ((longs == 0) && !unsigned_ &&
+            (-0x80000000LL <= signedValue_) && (signedValue_ <= 0x7FFFFFFFLL)) {
+          p = (int32_t) value_;
+        } else if ((longs == 0) && unsigned_ && (value_ <= 0xFFFFFFFFULL)) {
+          p = (uint32_t) value_;
+        } else if (unsigned_) {
+          p = (uint64_t) value_;
+        } else {
+          p = (int64_t) value_;
         }
       }
     }
